@@ -176,13 +176,17 @@ func c12call(lg *slog.Entry, entry string, sev slog.Level, std stdslog.Level, ct
 }
 
 func runProbe(c *Ctx, testing bool, base string, extra string) (exit int, timedOut bool, stderr string) {
+	return runProbeFor(c, "C12", testing, base, extra)
+}
+
+func runProbeFor(c *Ctx, prop string, testing bool, base string, extra string) (exit int, timedOut bool, stderr string) {
 	bin := c.Self
 	var args []string
 	if testing {
 		bin += ".test"
 		args = append(args, "-test.vf=1")
 	}
-	args = append(args, "-prop", "C12", "-sub", "exec", "-out", base, "-x", extra)
+	args = append(args, "-prop", prop, "-sub", "exec", "-out", base, "-x", extra)
 	cmd := exec.Command(bin, args...)
 	cmd.Env = []string{"PATH=" + os.Getenv("PATH"), "HOME=" + os.Getenv("HOME")}
 	var eb bytes.Buffer
